@@ -431,6 +431,43 @@ def run(ctx):
                 for N in (1, 3):
                     st["predictions"] += 1
                     check_predict(mdl, kind, rs.rand(N, 3), viol, f"{cls.__name__} holding no samples (noise {'scalar' if np.ndim(nz) == 0 else 'matrix ' + str(np.asarray(nz).tolist())}) after {list(hist)}")
+    # predictions taken while samples are pending (added or cleared but not yet updated) are still conditioned on
+    # exactly the samples held at the last update (deterministic histories, all three wrappers, both noise forms)
+    from vopy.models import CorrelatedExactGPyTorchModel
+    for kind, cls in (("indep", IndependentExactGPyTorchModel), ("list", GPyTorchModelListExactModel), ("corr", CorrelatedExactGPyTorchModel)):
+        for nz in ((0.1,) if kind == "list" else (0.1, np.eye(2) * 0.05 + 0.01)):
+            for hist in (("add", "update", "clear"), ("add", "update", "add"), ("add", "update", "clear", "add"), ("update", "add")):
+                if kind == "corr" and hist[0] == "update":
+                    continue
+                mdl = cls(2, 2, nz)
+                rs = np.random.RandomState(15)
+                Xq = rs.rand(3, 2)
+                snap = None
+                tagp = f"{cls.__name__} (noise {'scalar' if np.ndim(nz) == 0 else 'matrix'}) after {list(hist)} and no further update"
+                for op in hist:
+                    if op == "add":
+                        nn = 1 + (len(hist) % 3)
+                        if kind == "list":
+                            for k in range(2):
+                                mdl.add_sample(rs.rand(nn, 2), rs.randn(nn), k)
+                        else:
+                            mdl.add_sample(rs.rand(nn, 2), rs.randn(nn, 2))
+                    elif op == "clear":
+                        mdl.clear_data()
+                    else:
+                        mdl.update()
+                        check_predict(mdl, kind, Xq, viol, tagp + " (at the update)")
+                        snap = mdl.predict(Xq)
+                st["predictions"] += 2
+                try:
+                    got = mdl.predict(Xq)
+                    got1 = mdl.predict(Xq[:1])
+                except Exception as e:
+                    viol.append({"signature": "predict-raised", "message": f"{tagp}: predict raised {type(e).__name__}: {str(e)[:120]}", "replay": {"kind": kind, "tag": tagp}})
+                    continue
+                if not (np.allclose(got[0], snap[0], rtol=1e-9, atol=1e-10) and np.allclose(got[1], snap[1], rtol=1e-9, atol=1e-10)
+                        and np.allclose(got1[0], snap[0][:1], rtol=1e-7, atol=1e-9)):
+                    viol.append({"signature": "pending-samples-change-prediction", "message": f"{tagp}: predict() differs from the posterior of the samples held at the last update (max mean change {np.abs(got[0] - snap[0]).max():.3g}, max covariance change {np.abs(got[1] - snap[1]).max():.3g})", "replay": {"kind": kind, "tag": tagp}})
     factories(ctx, viol, st)
     run_exact(ctx, viol, st)
     return {"evaluations": sum(st.values()), "distinct_nontrivial": st["history_ops"] + st["predictions"], "traces": 18 if ctx.quick else 180,
